@@ -61,6 +61,10 @@ def make_samples(vseed: int, nsamps: int, nchans: int, nbits: int, mode: str = "
         period = 5 + vseed % 11
         blank = ((t // period) % 2 == 1)
         return np.where(blank, 0, np.maximum(vals, 1 if top >= 1 else 0)).astype(dt)
+    if mode == "high":
+        # values at the top of the sample type (top-5 .. top): sums of many of them are where a narrow accumulator wraps
+        top = (1 << nbits) - 1 if nbits < 32 else 255
+        return (np.int64(top) - (h % np.uint64(6)).astype(np.int64)).astype(dt)
     if mode == "blank128":
         # small positive integers with every second stretch of 128 samples exactly zero in all channels: whole blocks of
         # several kB that are nothing but zero bytes (blanked data, zero padding at the end of a scan)
